@@ -3064,6 +3064,7 @@ class Env(cabc.MutableMapping):
                 decided.add(k)
                 if v is DELETE_VAR:
                     masked.add(k)
+        shown = set()
         for key in self.rawkeys():
             if not isinstance(key, str):
                 continue
@@ -3071,7 +3072,14 @@ class Env(cabc.MutableMapping):
                 continue
             if key in self._d and self._d[key] is DELETE_VAR:
                 continue
+            shown.add(key)
             yield key
+        # a variable that only an overlay provides (or that an overlay puts
+        # back above a mask in `_d`) is as visible here as it is to ``[]``,
+        # ``in`` and ``detype()``
+        for key in decided - masked - shown:
+            if isinstance(key, str):
+                yield key
 
     def __contains__(self, item):
         for overlay in reversed(self._overlay_stack):
